@@ -1,4 +1,24 @@
 import AtreeProofs.WorldInv
-/- Helper lemmas for the World model (C10, C11). -/
-namespace Atree
-end Atree
+import AtreeProofs.World.Basic
+import AtreeProofs.World.Dom
+import AtreeProofs.World.Ops
+import AtreeProofs.World.Frame
+import AtreeProofs.World.RootStable
+import AtreeProofs.World.MutIdx
+import AtreeProofs.World.Eval
+import AtreeProofs.World.Scenario
+/-
+  Helper lemmas for the World model (C10, C11), split over AtreeProofs/World/*.lean:
+  * Basic      — table accessors, `Cont.inline/uninline`, `childStorable`, `uninlineIfNeeded`,
+                 `Cont.SameData`, permuted association lists, `Arr.set_get_single`
+  * Dom        — `DomRel`: the mutual block keeps the known containers and (given root-ID
+                 stability of array / map `set`) every value ID
+  * Ops        — the same for the public operations
+  * Frame      — frame of a notification when the parent pointers are acyclic (`RankOk`)
+  * MutIdx     — `MutIdxOk` through the mutual block and `arrInsert` (payloads of every array are
+                 unchanged by a notification), given list-level facts about the array operations
+  * RootStable — array / map operations keep the root slab ID, for every tree (no invariant)
+  * Eval       — kernel-evaluable copies of the mutual block and of the public operations, proved
+                 equal to the model (used for `decide` on concrete worlds)
+  * Scenario   — the concrete run used by the non-vacuity sections
+-/
